@@ -232,12 +232,17 @@ def evalGeom (g : Geom) : Eval :=
   let exactRings := rings.all ringExact
   let kr := if exactRings then 1 else (rings.map ringCond).foldl rmax 1
   let n : Nat := coords.length + 2
-  let tol := 16 * uRound * (n : Rat) * kappa * kr * (maxAbs coords + diamBound coords)
+  -- c = M / W: a relative error u·n·κ of the total weight W moves c by that fraction of |c| itself, and with
+  -- cancelling weights (holes as large as their shell) |c| can exceed the coordinate range by the factor κ,
+  -- so the scale of the bound includes the exact centroid's own magnitude
+  let model := centroid lenD g
+  let cabs := match model with | some c => rmax (rabs c.x) (rabs c.y) | none => 0
+  let tol := 16 * uRound * (n : Rat) * kappa * kr * (maxAbs coords + diamBound coords + cabs)
   let skip :=
     if polys.any polyNearTie then some "near-tie-area"
     else if !as.isEmpty && w = 0 then some "zero-total-weight"
     else none
-  { g := g, coords := coords, model := centroid lenD g, spec := centroidSpec lenD g, tol := tol,
+  { g := g, coords := coords, model := model, spec := centroidSpec lenD g, tol := tol,
     topDim := maxDim as, kappa := kappa,
     hullDemanded := top.all (fun a => a.w ≥ 0) && polys.all polyNice,
     exactRings := exactRings, skip := skip }
